@@ -64,6 +64,45 @@ Proof.
 Qed.
 
 (* ------------------------------------------------------------------ *)
+(** * the oracle of the correspondence run and the model *)
+
+Lemma gate_valid_limits fs : Forall (fun f => gate_valid_filter f = true) fs ->
+  forall f l, In f fs -> f_limit f = Some l -> 0 <= l.
+Proof.
+  intros Gf f l Hf E. rewrite Forall_forall in Gf.
+  destruct (gate_valid_filter_facts f (Gf f Hf)) as [_ [_ [_ Hl]]]. specialize (Hl l E). lia.
+Qed.
+
+(** C06 oracle_exact: on gate-valid filter lists the boolean oracle accepts an
+    answer exactly when the property's statement holds of it - it never
+    accepts an answer the property forbids and never rejects one it allows,
+    also when a small maxLimit cuts the merged answer *)
+Theorem oracle_exact es fs maxLimit out :
+  Forall (fun f => gate_valid_filter f = true) fs -> 0 <= maxLimit ->
+  (query_specb es fs maxLimit out = true <-> query_spec es fs maxLimit out).
+Proof.
+  intros Gf Hml. apply query_specb_spec; [assumption | now apply gate_valid_limits].
+Qed.
+
+(** C06 model_satisfies_oracle: under the hypotheses of [query_correct] the
+    oracle accepts the model's answer, for every history and filter list: the
+    check cannot raise a false alarm on an implementation that agrees with
+    the model *)
+Theorem model_satisfies_oracle
+  (xx : Z -> str -> Z) (md5 : str -> str) seed (h : list (list event)) fs maxLimit :
+  no_collision xx md5 seed (concat h) fs ->
+  gate_valid (concat h) -> ids_functional (concat h) ->
+  e_refs_canonical (concat h) = true -> a_refs_scoped (concat h) = true ->
+  fs <> [] -> Forall (fun f => gate_valid_filter f = true) fs -> 0 < maxLimit <= NoLimit ->
+  exists out, query (run seed empty_db h) fs maxLimit = Some out /\
+              query_specb (concat h) fs maxLimit out = true.
+Proof.
+  intros NC G F Ec As Ne Gf Hml.
+  destruct (query_correct xx md5 seed h fs maxLimit NC G F Ec As Ne Gf Hml) as [out [Q S]].
+  exists out. split; [assumption|]. apply oracle_exact; [assumption | lia | assumption].
+Qed.
+
+(* ------------------------------------------------------------------ *)
 (** * the former witnesses now behave as specified *)
 
 Definition w_pk : str := repeat 97%N 64.
